@@ -17,7 +17,7 @@ import (
 func init() {
 	register(&Check{
 		ID:   "C05",
-		Rule: "case = one seed (destination type T, valid message m) drawn from the C01 corpus; per seed every prefix of m, every structural byte located by the schema-less parser (type codes, ids, lengths, counts, STOPs) overwritten with boundary values, random single-byte corruptions, splices with a second message, trailing junk and random strings are decoded from a buffer right-aligned against a guard page; oracle per input: no panic/fault, success iff the reference decoder accepts (either for LENIENT encodings), same n, allocation <= 64KiB+16*(maxElem+16)*len; distinct = distinct (type shape) ; non-trivial = at least 10 inputs rejected and 1 accepted",
+		Rule: "case = one seed (destination type T, valid message m) drawn from the C01 corpus; per seed every prefix of m, every structural byte located by the schema-less parser (type codes, ids, lengths, counts, STOPs) overwritten with boundary values, all 256 type codes at three type-code sites, well-formed fields with edge ids (0, 1, max+1, 32767, 32768, 65535) injected into every struct instance, random single-byte corruptions, splices with a second message, trailing junk and random strings are decoded from a buffer right-aligned against a guard page; oracle per input: no panic/fault, success iff the reference decoder accepts (either for LENIENT encodings), same n, allocation <= 64KiB+16*(maxElem+16)*len; distinct = distinct (type shape) ; non-trivial = at least 10 inputs rejected and 1 accepted",
 		Plan: func(tier string) []BuildPlan {
 			if tier == "thorough" {
 				return []BuildPlan{{"plain", 1200}, {"checkptr", 600}, {"asan", 300}}
@@ -178,7 +178,7 @@ func (m *decodeMonitor) try(label string, in []byte) {
 	}
 }
 
-var corruptTypeCodes = []byte{0, 1, 2, 3, 4, 5, 6, 8, 10, 11, 12, 13, 14, 15, 16, 17, 0x7f, 0x80, 0xff}
+var corruptTypeCodes = []byte{0, 1, 2, 3, 4, 5, 6, 7, 8, 9, 10, 11, 12, 13, 14, 15, 16, 17, 0x7f, 0x80, 0x82, 0x8b, 0x8c, 0xfd, 0xfe, 0xff}
 
 func u32(v int) []byte {
 	var b [4]byte
@@ -276,6 +276,48 @@ func runC05(c *harness.Ctx, idx int) {
 	// structural corruptions
 	pr := wire.Parse(msg)
 	structuralMutations(r, msg, pr.Sites, 1500, m.try)
+	// every possible type code at a few type-code sites
+	var tsites []wire.Site
+	for _, st := range pr.Sites {
+		if st.Kind == "ftype" || st.Kind == "etype" || st.Kind == "ktype" || st.Kind == "vtype" {
+			tsites = append(tsites, st)
+		}
+	}
+	for k := 0; k < 3 && len(tsites) > 0; k++ {
+		st := tsites[r.Intn(len(tsites))]
+		for code := 0; code < 256; code++ {
+			if byte(code) == msg[st.Off] {
+				continue
+			}
+			in := append([]byte(nil), msg...)
+			in[st.Off] = byte(code)
+			m.try(fmt.Sprintf("%s@%d=all:%d", st.Kind, st.Off, code), in)
+		}
+	}
+	// well-formed unknown fields injected at the end of every struct instance (ids at
+	// the edges: 0, 1, just above the largest declared id, 32767/32768, 65535)
+	maxID := 0
+	for _, f := range s.Fields {
+		if int(f.ID) > maxID {
+			maxID = int(f.ID)
+		}
+	}
+	nstop := 0
+	for _, st := range pr.Sites {
+		if st.Kind != "stop" {
+			continue
+		}
+		if nstop++; nstop > 30 {
+			break
+		}
+		for _, id := range []int{0, 1, maxID + 1, 32767, 32768, 65535} {
+			id &= 0xffff
+			var fld []byte
+			fld = gen.AppendRandomField(r, fld, uint16(id), 1)
+			in := append(append(append([]byte(nil), msg[:st.Off]...), fld...), msg[st.Off:]...)
+			m.try(fmt.Sprintf("inject-id-%d@%d", id, st.Off), in)
+		}
+	}
 	// random single-byte corruptions
 	for j := 0; j < 150 && L > 0; j++ {
 		in := append([]byte(nil), msg...)
